@@ -177,7 +177,8 @@ def work_walk(item):
 def work_digits(item):
     """every digit in every numeric operand slot of every construct (depth 1): the literal's cell run - upper or lowered digit table,
     validated against the bare <mn> - must be in the braille"""
-    code, prefs = item
+    code, prefs = item[:2]
+    special = len(item) > 2 and item[2] == "special"
     mc = mcx.worker_mc()
     lang, mark, table, dec = CODES[code]
     setup = [["rules_dir", mcx.RULES], ["pref", "TTS", "none"], ["pref", "Language", lang], ["pref", "BrailleCode", code], ["pref", "BrailleNavHighlight", "Off"]] + prefs
@@ -186,6 +187,13 @@ def work_digits(item):
         probe = terms.Filler("int")
         terms.build((name, None, None), probe)
         for k in range(len(probe.planted)):
+            if special:
+                # decimals that are numerically a small integer or a half, and an ordinary decimal as the witness that the slot is rendered at all
+                for lit in c04.SPECIAL_LITERALS + ["16.8"]:
+                    f = terms.SpecialFiller(k, lit, mark)
+                    t = terms.build((name, None, None), f)
+                    built.append((name, k, lit, t, list(f.planted)))
+                continue
             for dgt in range(10):
                 f = terms.DigitFiller(k, dgt)
                 t = terms.build((name, None, None), f)
@@ -221,6 +229,12 @@ def work_digits(item):
         if bad and len(bad) < len(per):
             d_ = bad[0]
             _, b, lit = per[d_]
+            if special:
+                for d_ in bad:
+                    _, b, lit = per[d_]
+                    viol.append((f"C06|{code}|special-literal|{name}.{k}|{d_}", f"[{code}] {name}: the literal {lit} in operand {k} has no cell run (upper {ref[lit][0]!r} or lowered {ref[lit][-1]!r}) in {b!r}, "
+                                 f"while {sorted(set(per) - set(bad))} are rendered there", {"digits": "special", "code": code, "prefs": prefs, "label": name, "shape": None}))
+                continue
             viol.append((f"C06|{code}|digit|{name}.{k}", f"[{code}] {name}: the literal {lit} in operand {k} has no cell run (upper {ref[lit][0]!r} or lowered {ref[lit][-1]!r}) in {b!r}, "
                          f"while the literals starting with the digits {sorted(set(per) - set(bad))} are rendered there (digits affected: {bad})",
                          {"digits": True, "code": code, "prefs": prefs, "label": name, "shape": None}))
@@ -244,7 +258,7 @@ def confirm(replay, verbose=False):
     try:
         cases = [] if replay["shape"] is None else [(replay["label"], c04._tup(replay["shape"]))]
         if replay.get("digits"):
-            v, _, _ = work_digits((replay["code"], replay["prefs"]))
+            v, _, _ = work_digits((replay["code"], replay["prefs"]) + (("special",) if replay["digits"] == "special" else ()))
             v = [x for x in v if x[2]["label"] == replay["label"]]
         elif "walk" in replay:
             v, _, _ = work_walk((replay["walk"][0], replay["walk"][1], cases))
@@ -280,6 +294,7 @@ def main(tier):
     for code in CODES:
         for prefs in CODE_PREFS[code]:
             jobs.append(("G", code, prefs))
+            jobs.append(("G", code, prefs, "special"))
     wshapes = list(shapes) if tier == "thorough" else list(shapes[::3])
     run.count("code_walk_shapes", len(wshapes))
     for a in CODES:
@@ -307,7 +322,7 @@ def main(tier):
             run.nontriv(h)
     return run.finish(
         rule="planted-literal terms as in C04 (all spine terms to depth 2; depth 3 over a 12-construct core for Nemeth/UEB/LaTeX in quick, all codes in "
-             "thorough; depth 4 over a 6-construct core in thorough; all spine terms to depth 2 again with integer literals; every digit in every numeric operand slot of every construct) x codes {Nemeth, UEB, CMU, Vietnam, LaTeX, ASCIIMath} x code preferences "
+             "thorough; depth 4 over a 6-construct core in thorough; all spine terms to depth 2 again with integer literals; every digit in every numeric operand slot of every construct; the decimals 2.0 3.0 1.0 0.0 4.0 10.0 2.00 0.5 - numerically small integers and a half - in every numeric slot of every construct) x codes {Nemeth, UEB, CMU, Vietnam, LaTeX, ASCIIMath} x code preferences "
              "(UEB start mode and operator spacing, Vietnam drop numbers, LaTeX short names, ASCIIMath operator spacing); plus code walks on the SAME stored "
              "expression: braille under A, then under B without a new set_mathml, for all 30 ordered pairs (quick: every third spine term; thorough: all). "
              "distinct_nontrivial = distinct (code, preferences, braille string) triples",
